@@ -282,7 +282,7 @@ def check_property(pid, tier, seed):
         for di, d in enumerate(drivers):
             binpath = build_harness(d.get("profile", "debug"), d.get("features"))
             nsh = d.get("shards", {}).get(tier, JOBS)
-            tagp = d.get("profile", "debug") + ("-s" + d["env"]["HARNESS_SAMPLE"] if d.get("env", {}).get("HARNESS_SAMPLE") else "")
+            tagp = d.get("profile", "debug") + "".join("-" + k.replace("HARNESS_", "").lower() + v for k, v in sorted(d.get("env", {}).items()))
             files = [os.path.join(wdir, "%s.%s.%d.ndjson" % (d["driver"], tagp, k)) for k in range(nsh)]
             tmo = d.get("timeout", {}).get(tier, 1200)
 
